@@ -23,7 +23,7 @@ func RunPool(sc *Script) []trace.Event {
 	ops := []interface{}{}
 	for o := 1; o <= 3; o++ {
 		ops = append(ops, map[string]interface{}{"o": o, "g": 1, "kind": "poolread",
-			"fault": map[string]interface{}{"err": 0, "cut": -1, "report": false, "stall": 0, "corr": 0}})
+			"fault": map[string]interface{}{"err": 0, "cut": -1, "report": false, "stall": 0, "corr": 0, "split": false}})
 	}
 	rec.Emit(trace.Event{"ev": "cfg", "id": sc.ID, "kind": sc.Kind, "versions": map[string]interface{}{}, "ops": ops, "nops": 3})
 	a, na, err := dial(n)
@@ -41,7 +41,7 @@ func RunPool(sc *Script) []trace.Event {
 	end := func(o int, own bool, err error, nrec int, closed bool) {
 		cls, code := errClass(err)
 		rec.Emit(trace.Event{"ev": "opend", "o": o, "kind": "poolread", "result": cls, "code": code, "own": own, "info": fmt.Sprint(err),
-			"nrec": nrec, "freshResult": "", "freshOwn": false, "closed": closed})
+			"nrec": nrec, "freshResult": "", "freshOwn": false, "freshNrec": 0, "closed": closed})
 	}
 	check := func(m kafka.Message, want int64) bool {
 		return m.Offset == want && string(m.Value) == string(valueOf(want)) && string(m.Key) == fmt.Sprintf("k%d", want)
